@@ -51,6 +51,7 @@ def cases(tier):
                 for fill in (True, False):
                     yield ("read", gi, vt, vs, fill, tier)
     yield ("novar",)
+    yield ("templates",)
     for gi in range(len(GRIDS)):
         for kinds in (("f",), ("i",), ("f", "f"), ("f", "i"), ("i", "f")):
             yield ("write", gi, kinds, tier)
@@ -346,8 +347,123 @@ def _run_write(case):
     return {"evals": evals, "nontrivial": evals, "judged": judged, "viols": viols, "outcomes": outcomes, "sample": sample}
 
 
+TEMPLATE_STYLES = ("plain", "packed", "packed-both", "fill", "fill-nan", "int", "unsigned", "attrs", "descending")
+
+
+def _styled_template(path, style):
+    """a 2 x 3 template whose coordinate variables are stored the ways real files store them"""
+    from netCDF4 import Dataset
+
+    with Dataset(path, "w") as ds:
+        ds.createDimension("y", 2)
+        ds.createDimension("x", 3)
+        y = ds.createVariable("y", "i2" if style == "packed-both" else "f8", ("y",))
+        if style == "packed-both":
+            y.scale_factor = 0.25
+            y.add_offset = -10.0
+        y.units = "degrees_north"
+        y[:] = [40.0, 40.5]
+        if style in ("packed", "packed-both"):
+            x = ds.createVariable("x", "i2", ("x",))
+            x.scale_factor = 0.5
+            x.add_offset = 100.0
+            x[:] = [100.0, 110.5, 121.0]
+        elif style == "fill":
+            x = ds.createVariable("x", "f8", ("x",), fill_value=-9999.0)
+            x[:] = [1.0, 2.0, 3.0]
+        elif style == "fill-nan":
+            x = ds.createVariable("x", "f8", ("x",), fill_value=float("nan"))  # what xarray writes for coordinates by default
+            x[:] = [1.0, 2.0, 3.0]
+        elif style == "int":
+            x = ds.createVariable("x", "i4", ("x",))
+            x[:] = [1, 2, 3]
+        elif style == "unsigned":
+            x = ds.createVariable("x", "u1", ("x",))
+            x[:] = [1, 200, 255]
+        elif style == "attrs":
+            x = ds.createVariable("x", "f4", ("x",))
+            x.setncatts({"units": "degrees_east", "standard_name": "longitude", "axis": "X", "valid_range": numpy.array([-180.0, 180.0], dtype="f4"), "comment": "a, b; c"})
+            x[:] = [-120.0, -119.75, -119.5]
+        elif style == "descending":
+            x = ds.createVariable("x", "f8", ("x",))
+            x[:] = [3.0, 2.0, 1.0]
+        else:
+            x = ds.createVariable("x", "f4", ("x",))
+            x[:] = [1, 2, 3]
+        t = ds.createVariable("t", "f8", ("y", "x"))
+        t[:] = numpy.arange(6.0).reshape(2, 3)
+
+
+def _raw_var(ds, name):
+    v = ds[name]
+    v.set_auto_maskandscale(False)
+    return (v.dtype.str, numpy.asarray(v[:]).tolist(), {a: (numpy.asarray(v.getncattr(a)).tolist()) for a in v.ncattrs()})
+
+
+def _run_templates(case):
+    """the template's dimension variables must be copied UNCHANGED (stored numbers, storage type, attributes), however they are stored"""
+    from netCDF4 import Dataset
+    from mpilot.exceptions import MPilotError
+    from ..vlib import const as C
+
+    work = snapshot.scratch_dir("c18_")
+    viols, outcomes = [], {}
+    evals = 0
+    sample = None
+    try:
+        for style in TEMPLATE_STYLES:
+            _styled_template(os.path.join(work, "tpl.nc"), style)
+            with Dataset(os.path.join(work, "tpl.nc")) as ds:
+                want = {d: _raw_var(ds, d) for d in ("y", "x")}
+            for kinds in (("f",), ("f", "i")):
+                arrays = [numpy.ma.MaskedArray(numpy.array([0.5, -1.25, 3.0, 1e10, -0.0, 7.75]).reshape(2, 3), mask=numpy.array([0, 1, 0, 0, 0, 0], dtype=bool).reshape(2, 3)),
+                          numpy.ma.MaskedArray(numpy.array([2, -1, 0, 123456, 5, -7], dtype=numpy.int64).reshape(2, 3))][:len(kinds)]
+                names = ["R%d" % i for i in range(len(arrays))]
+                p = _program(work)
+                C.TABLE.clear()
+                for nm, a in zip(names, arrays):
+                    C.TABLE[nm] = (lambda a=a: a.copy())
+                    p.add_command(p.find_command_class("ConstNF"), nm, {"Key": nm})
+                p.add_command(p.find_command_class("EEMSWrite"), "W", {"OutFileName": "out.nc", "OutFieldNames": list(names), "DimensionFileName": "tpl.nc", "DimensionFieldName": "t"})
+                evals += 1
+                tag = {"template_style": style, "kinds": list(kinds), "template_coordinates": {d: list(want[d]) for d in want}}
+                sample = {"template_style": style}
+                if os.path.exists(os.path.join(work, "out.nc")):
+                    os.remove(os.path.join(work, "out.nc"))
+                try:
+                    with numpy.errstate(all="ignore"):
+                        p.commands["W"].result
+                except MPilotError as exc:
+                    viols.append(V("C18:write:template:%s:raised:%s" % (style, type(exc).__name__), "writing with a template whose coordinates are stored %r raised %s: %s" % (
+                        style, type(exc).__name__, str(exc).split("\n")[0][:200]), **tag))
+                    outcomes["templates:%s:raised" % style] = outcomes.get("templates:%s:raised" % style, 0) + 1
+                    continue
+                ok = True
+                with Dataset(os.path.join(work, "out.nc")) as ds:
+                    for d in ("y", "x"):
+                        got = _raw_var(ds, d) if d in ds.variables else None
+                        canon = lambda t: repr((t[0], t[1], sorted(t[2].items())))  # (the order of attributes means nothing)
+                        if got is None or canon(got) != canon(want[d]):
+                            viols.append(V("C18:write:template:%s:dimension-variable-differs" % style, "dimension variable %s written as %r, the template has %r" % (d, got, want[d]), **tag))
+                            ok = False
+                for nm, a, k in zip(names, arrays, kinds):
+                    res = _eems_read(work, "out.nc", nm, "Float" if k == "f" else "Integer", None)
+                    union = numpy.ma.getmaskarray(arrays[0]).ravel().tolist()
+                    if res[0] == "err" or numpy.ma.getmaskarray(res[1]).ravel().tolist() != union or any(
+                            (not u) and g != w for u, g, w in zip(union, numpy.ma.getdata(res[1]).ravel().tolist(), a.data.ravel().tolist())):
+                        viols.append(V("C18:roundtrip:template:%s:differs" % style, "re-reading %s written with template style %r does not give the written values" % (nm, style), **tag))
+                        ok = False
+                outcomes["templates:%s:%s" % (style, "ok" if ok else "bad")] = outcomes.get("templates:%s:%s" % (style, "ok" if ok else "bad"), 0) + 1
+    finally:
+        import shutil
+        shutil.rmtree(work, ignore_errors=True)
+    return {"evals": evals, "nontrivial": evals, "judged": evals, "viols": viols, "outcomes": outcomes, "sample": sample}
+
+
 def run(case):
     case = tuple(case)
+    if case[0] == "templates":
+        return _run_templates(case)
     if case[0] == "read":
         return _run_read(case)
     if case[0] == "novar":
